@@ -198,6 +198,30 @@ class Repo:
 
         return resolve
 
+    def reach(self, fi, depth=3):
+        """``fi`` and the package functions it (transitively) calls: ``self.m()`` / ``cls.m()`` /
+        ``Class.m()`` through the class hierarchy of ``fi`` and module functions by name"""
+        seen, order, work = {fi.id}, [fi], [(fi, 0)]
+        while work:
+            cur, d = work.pop()
+            if d >= depth:
+                continue
+            for n in ast.walk(cur.node):
+                if not isinstance(n, ast.Call):
+                    continue
+                f, tgt = n.func, None
+                if isinstance(f, ast.Attribute) and isinstance(f.value, ast.Name) and cur.cls is not None:
+                    first = [x.arg for x in cur.node.args.posonlyargs + cur.node.args.args][:1]
+                    if f.value.id in first or f.value.id in ('self', 'cls') or f.value.id == cur.cls.name:
+                        tgt = self.method(cur.cls, f.attr)
+                elif isinstance(f, ast.Name):
+                    tgt = self.module_funcs.get((cur.module, f.id))
+                if tgt is not None and tgt.id not in seen:
+                    seen.add(tgt.id)
+                    order.append(tgt)
+                    work.append((tgt, d + 1))
+        return order
+
     def instance_attrs(self, ci):
         """names assigned as ``self.<name> = ...`` by any method of the class or its bases"""
         key = ('ia', ci.qual)
